@@ -399,6 +399,9 @@ def verify_contract(c, reg, timeout_ms=QUICK_TIMEOUT_MS, max_paths=4000, want_sm
                 a['unknown'] += 1
             elif ob.status == 'abstract-cex':
                 a['abstract'] = a.get('abstract', 0) + 1
+                a.setdefault('abstract_cex', [])
+                if len(a['abstract_cex']) < 2:
+                    a['abstract_cex'].append(ob.info.get('cex'))
             elif ob.status.startswith('known:'):
                 a['known'].setdefault(ob.status[6:], []).append(ob.info.get('cex'))
             else:
